@@ -163,8 +163,9 @@ def _init_worker(base):
     signal.signal(signal.SIGINT, signal.SIG_IGN)
 
 
-class CaseTimeout(Exception):
-    pass
+class CaseTimeout(BaseException):
+    """raised by the harness's own alarm; not an Exception, so that no `except Exception` around a call into the
+    implementation records it as something the implementation raised"""
 
 
 def _alarm(signum, frame):
